@@ -43,6 +43,8 @@ static long long vs_now_ns()
 #include <ompl/util/Console.h>
 #include <ompl/util/RandomNumbers.h>
 #include <thread>
+#include <sys/personality.h>
+#include <unistd.h>
 
 namespace ob = ompl::base;
 namespace og = ompl::geometric;
@@ -471,8 +473,6 @@ static void scInterrupt(const std::string &planner, const std::string &map, int 
             std::string kk = kx;
             if (kk.substr(0, 4) == "C01|" || kk.substr(0, 4) == "C03|")
                 kk = prop + "|threaded|" + kk.substr(kk.substr(0, 13) == "C03|threaded|" ? 13 : 4);
-            if (kx.find("status-approximate-but-exact") != std::string::npos && hadTop && !topBefore.approximate_)
-                kk += "|exact-solution-predates-this-call";  // same classification as in the sequential harness
             out.fail(kk, w + " [k=" + std::to_string(k) + ", step " + step + "]");
         };
         if (extra > 60 && prop == "C03")
@@ -725,6 +725,45 @@ static bool findScenario(const std::string &name, Scenario &sc)
         }
     return false;
 }
+#elif defined(SCEN_C18)
+// the threaded half of C18 (terminate() against evaluations, the periodically evaluated form): same scenario bodies as in C19's set
+static const char *PROP = "C18";
+static void scTerminate(tse::Out &out);
+static void scPeriodic(tse::Out &out);
+static void scPeriodicTerminate(tse::Out &out);
+static std::vector<Scenario> scenarios()
+{
+    return {
+        {"terminate", scTerminate, true, 2, 3, 50000},
+        {"periodic", scPeriodic, true, 1, 2, 50000},
+        {"periodic-terminate", scPeriodicTerminate, true, 2, 3, 50000},
+    };
+}
+static std::vector<std::string> jobNames()
+{
+    std::vector<std::string> j;
+    for (auto &s : scenarios())
+        j.push_back(s.name);
+    return j;
+}
+static std::vector<Scenario> jobScenarios(const std::string &job, bool)
+{
+    std::vector<Scenario> v;
+    for (auto &s : scenarios())
+        if (job == s.name)
+            v.push_back(s);
+    return v;
+}
+static bool findScenario(const std::string &name, Scenario &sc)
+{
+    for (auto &s : scenarios())
+        if (name == s.name)
+        {
+            sc = s;
+            return true;
+        }
+    return false;
+}
 #elif defined(SCEN_C01)
 // C01's path oracle for the always-multi-threaded planners: budgets x schedules
 static const char *PROP = "C01";
@@ -962,6 +1001,17 @@ int main(int argc, char **argv)
 #else
 int main(int argc, char **argv)
 {
+    // scheduling sites are recorded as code addresses: run with address-space randomisation off, so that a replay in a fresh process
+    // sees the same addresses as the exploration that recorded them
+    {
+        int cur = personality(0xffffffff);
+        if (cur != -1 && !(cur & ADDR_NO_RANDOMIZE) && !getenv("VERIF_NO_REEXEC"))
+        {
+            setenv("VERIF_NO_REEXEC", "1", 1);
+            if (personality(cur | ADDR_NO_RANDOMIZE) != -1)
+                execv("/proc/self/exe", argv);
+        }
+    }
     ompl::msg::setLogLevel(ompl::msg::LOG_NONE);
     vf::Harness H;
     H.property = PROP;
@@ -1067,6 +1117,16 @@ int main(int argc, char **argv)
                     rep.metrics["tsan_reports_" + job] = tsan.size();
                 }
                 bool byTsan = tsanConfirms(tsan, r.second.f1, r.second.f2);
+                // the free-running pass samples real interleavings: before a candidate is dismissed it gets two longer passes
+                for (int reps : {160, 480})
+                {
+                    if (byTsan || consequence)
+                        break;
+                    auto more = tsanPass(job, reps);
+                    tsan.insert(tsan.end(), more.begin(), more.end());
+                    rep.metrics["tsan_reports_" + job] = tsan.size();
+                    byTsan = tsanConfirms(tsan, r.second.f1, r.second.f2);
+                }
                 if (byTsan || consequence)
                 {
                     status = std::string("CONFIRMED by ") + (byTsan ? "free-running ThreadSanitizer" : "") + (byTsan && consequence ? " and " : "") + (consequence ? "an exhibited consequence" : "");
@@ -1124,6 +1184,7 @@ int main(int argc, char **argv)
             E.sets = tse::Sets();
             E.P = (int)v["P"].i();
             E.maxSchedules = 20000;
+            E.promoteRacy = sc.part1;  // as in the run that found it: racy sites of the documented surface are scheduling points
             E.explore();
             for (auto &f : E.failures)
                 printf("%s: %s\n", f.first.c_str(), f.second.first.c_str());
